@@ -317,10 +317,11 @@ pub async fn run_fault_case(case: &C09Case, obs: &mut Obs) {
 	let mut on_disc = tokio::spawn(async move { format!("{:?}", disc_client.on_disconnect().await) });
 	let during_start = w.ops.len();
 	for k in &case.during {
-		match k % 3 {
+		match k % 4 {
 			0 => w.spawn_call(),
 			1 => w.spawn_subscribe(),
-			_ => w.spawn_batch(2),
+			2 => w.spawn_batch(2),
+			_ => w.spawn_register(),
 		}
 		settle().await;
 	}
@@ -364,11 +365,12 @@ pub async fn run_fault_case(case: &C09Case, obs: &mut Obs) {
 	w.mc.shared.gates.open_all();
 	settle().await;
 	for k in &case.after {
-		match k % 4 {
+		match k % 5 {
 			0 => w.spawn_call(),
 			1 => w.spawn_subscribe(),
 			2 => w.spawn_batch(2),
-			_ => w.spawn_notify(),
+			3 => w.spawn_notify(),
+			_ => w.spawn_register(),
 		}
 		settle().await;
 	}
@@ -558,7 +560,7 @@ pub fn enumerated_cases(tier: Tier) -> Vec<C09Case> {
 						continue;
 					}
 					for id_kind in [IdK::Number, IdK::String] {
-						out.push(C09Case { pre: history[..pos].to_vec(), fault: f.clone(), close_stalls, send_stalls, during: vec![0, 1, 2], after: vec![0, 1, 2, 3], id_kind });
+						out.push(C09Case { pre: history[..pos].to_vec(), fault: f.clone(), close_stalls, send_stalls, during: vec![0, 1, 2, 3], after: vec![0, 1, 2, 3, 4], id_kind });
 					}
 				}
 			}
